@@ -12,10 +12,10 @@ import (
 )
 
 type Veneers struct {
-	Language string        `yaml:"language"`
-	Package  string        `yaml:"package"`
-	Builders []BuilderRule `yaml:"builders"`
-	Options  []OptionRule  `yaml:"options"`
+	Language string         `yaml:"language"`
+	Package  string         `yaml:"package"`
+	Builders []*BuilderRule `yaml:"builders"`
+	Options  []*OptionRule  `yaml:"options"`
 }
 
 type VeneersLoader struct {
@@ -68,6 +68,11 @@ func (loader *VeneersLoader) load(reader io.Reader) (rewrite.LanguageRules, erro
 
 	// convert builder rules
 	for _, rule := range veneers.Builders {
+		// a null entry (kept as a nil pointer by the decoder) is an empty rule
+		if rule == nil {
+			return rewrite.LanguageRules{}, fmt.Errorf("empty rule")
+		}
+
 		builderRule, err := rule.AsRewriteRule(veneers.Package)
 		if err != nil {
 			return rewrite.LanguageRules{}, err
@@ -78,6 +83,10 @@ func (loader *VeneersLoader) load(reader io.Reader) (rewrite.LanguageRules, erro
 
 	// convert option rules
 	for _, rule := range veneers.Options {
+		if rule == nil {
+			return rewrite.LanguageRules{}, fmt.Errorf("empty rule")
+		}
+
 		optionRule, err := rule.AsRewriteRule(veneers.Package)
 		if err != nil {
 			return rewrite.LanguageRules{}, err
